@@ -14,15 +14,18 @@
   window does (fact `windowCalls` pins which calls `_send_signal` makes inside it).
   ONE INCARNATION PER TICK: `HistOK` / `HistOKb` exclude `spawnSameTick` (psutil's documented assumption);
   `C01_same_tick_counterexample` shows the claim is false without it.
-  BOOT TIME: `BtOK cfg.createNoneTest b` = "b ≠ 0, unless `create_time()` tests `BOOT_TIME is not None`"
-  (fixes/C02-boottime-zero.diff; with that fix landed the hypothesis is void: see Props/C02.lean).
+  BOOT TIME: no hypothesis.  The initial published boot time `b0` is ANY number and clock steps go to ANY value, 0
+  included: `create_time()` tests `BOOT_TIME is not None` (obligation `cfg_none_test`, /repo 29257b1 =
+  fixes/C02-boottime-zero.diff), so `HistOK true` / `HistOKb true` / `BtOK true b` restrict nothing there.  For a
+  configuration that tests truthiness (`BOOT_TIME or boot_time()`, the source before 29257b1) "never 0" is needed:
+  `C01_btime0_counterexample` (what-if theorem).
 
   Histories: any list of kernel events (spawn / exit / reap / tick / clock step / **permission change**: from now
   on the kernel refuses kill / setpriority / ioprio_set / sched_setaffinity / prlimit on a PID with EPERM or EACCES,
   or allows them again) and psutil calls
   (Process(pid), is_running, signals, setters, ppid, boot_time, create_time, ==, hash, process_iter,
-  oneshot() entry/exit, str) — the hypotheses are that the published boot time is never 0 (`BtOK`, see above) and that
-  `/proc/pid/stat` can always be opened (`HistOK` = no `setBtime 0` unless fixed, no `hide p true`, no `spawnSameTick`;
+  oneshot() entry/exit, str) — the hypothesis is that
+  `/proc/pid/stat` can always be opened (`HistOK true` = no `hide p true`, no `spawnSameTick`;
   what happens otherwise is characterised at the end of the file, and the HEADLINE theorem
   `C01_known_start_no_wrong_owner` holds without the readability hypothesis).  The effect log holds every OS call psutil
   made, carried out or refused by the kernel (`Eff.res`).  The object list of a state holds the objects built by `Process(pid)` AND those built and
@@ -44,6 +47,13 @@ open Spec
     `_init`), the signal numbers and the full affinity mask are as the proofs need -/
 theorem cfg_good : cfg.Good := by
   refine ⟨⟨?_, ?_⟩, ?_, ?_, ?_, ?_, ?_, ?_, ?_, ?_, ?_, ?_, ?_, ?_, ?_, ?_⟩ <;> decide
+
+/-- **cfg_none_test** (obligation, in force since /repo 29257b1 = fixes/C02-boottime-zero.diff): `create_time()` decides
+    "there is a cached boot time" by `BOOT_TIME is not None` (fact `createBoot = "isNotNone"`), not by truthiness.  Every
+    history theorem below rests on it: it is what lets them hold for EVERY boot time, 0 included, and every clock step.
+    It stops building when the test goes back to `BOOT_TIME or boot_time()`; what is false then is
+    `C01_btime0_counterexample`. -/
+theorem cfg_none_test : cfg.createNoneTest = true := by decide
 
 /-- the check-then-kill window of `_send_signal` holds no call: between `self._raise_if_pid_reused()` and `os.kill`
     only attribute loads happen (and the PID-0 refusal).  The window itself is outside every theorem (ATOMICITY); this
@@ -80,28 +90,28 @@ theorem signalMap_correct :
     `ioprio_set`, `sched_setaffinity`, `prlimit` psutil ever issued) was delivered while the PID was
     owned by the very incarnation the asking object was built for, under exactly the object's PID,
     and — for signals — to a PID > 0. -/
-theorem C01_no_wrong_owner (b0 : Nat) (hb : BtOK cfg.createNoneTest b0) (h : List Ev) (hh : HistOK cfg.createNoneTest h) :
+theorem C01_no_wrong_owner (b0 : Nat) (h : List Ev) (hh : HistOK true h) :
     ∀ e ∈ (run cfg (St.init b0) h).log, EffOK (run cfg (St.init b0) h).ps.objs e :=
-  run_log cfg_good h _ hh (init_inv _ hb) (fun e he => by simp [St.init] at he)
+  run_log cfg_good h _ (HistOK.of_none_test cfg_none_test hh) (init_inv _ (BtOK.of_none_test cfg_none_test b0)) (fun e he => by simp [St.init] at he)
 
 /-- **C01_never_group.** No signal is ever sent to PID 0 or a negative PID — after ANY history, unreadable stat
     files included (`HistOKb`; corollary of `C01_known_start_no_wrong_owner`).  Scope: the `os.kill` calls of the five
     `Process` signal methods (the only calls that add a `.kill` entry to the model's log); the `kill(pid, 0)` existence
     probe of `psutil.pid_exists()` / `Process.wait()` is C04's subject, `psutil.Popen` is outside the model. -/
-theorem C01_never_group (b0 : Nat) (hb : BtOK cfg.createNoneTest b0) (h : List Ev) (hh : HistOKb cfg.createNoneTest h) :
+theorem C01_never_group (b0 : Nat) (h : List Ev) (hh : HistOKb true h) :
     ∀ e ∈ (run cfg (St.init b0) h).log, e.kind = .kill → 0 < e.pid := fun e he hk => by
-  obtain ⟨_, _, _, hpos, _⟩ := run_log2 cfg_good h _ hh (init_inv2 _ hb) (fun e he => by simp [St.init] at he) e he
+  obtain ⟨_, _, _, hpos, _⟩ := run_log2 cfg_good h _ (HistOKb.of_none_test cfg_none_test hh) (init_inv2 _ (BtOK.of_none_test cfg_none_test b0)) (fun e he => by simp [St.init] at he) e he
   exact hpos hk
 
 /-- **C01_no_pid0_effect.** After any history that spawns no PID 0 (Linux lists none), NO OS call of any kind —
     signal or setter, carried out or refused — was made with a PID ≤ 0, on top of `EffOK` (right incarnation, the
     object's own PID).  For setpriority / ioprio_set / sched_setaffinity / prlimit PID 0 would mean "the calling
     process". -/
-theorem C01_no_pid0_effect (b0 : Nat) (hb : BtOK cfg.createNoneTest b0) (h : List Ev) (hh : HistOK cfg.createNoneTest h)
+theorem C01_no_pid0_effect (b0 : Nat) (h : List Ev) (hh : HistOK true h)
     (hz : HistNoPid0 h) :
     ∀ e ∈ (run cfg (St.init b0) h).log, EffOKStrict (run cfg (St.init b0) h).ps.objs e := fun e he => by
-  have hok := C01_no_wrong_owner b0 hb h hh e he
-  have hnz := run_nozero cfg_good.toBootGood h _ hh hz (init_inv _ hb) (init_nozero b0)
+  have hok := C01_no_wrong_owner b0 h hh e he
+  have hnz := run_nozero cfg_good.toBootGood h _ (HistOK.of_none_test cfg_none_test hh) hz (init_inv _ (BtOK.of_none_test cfg_none_test b0)) (init_nozero b0)
   refine ⟨hok, ?_⟩
   obtain ⟨o, ho, hp, _, _⟩ := hok
   have := hnz.objs o (List.mem_of_getElem? ho)
@@ -207,13 +217,13 @@ theorem C01_exact_args (s : St) (call : Call) :
     longer in the process table (it ended; its PID may be free, or live again under another process, or
     held by a zombie of another process; is_running() may or may not have been asked in between), every
     signal method and every setter raises NoSuchProcess(pid) and nothing reaches the OS. -/
-theorem C01_recycled_raises_NSP (b0 : Nat) (hb : BtOK cfg.createNoneTest b0) (h : List Ev) (hh : HistOK cfg.createNoneTest h) (call : Call)
+theorem C01_recycled_raises_NSP (b0 : Nat) (h : List Ev) (hh : HistOK true h) (call : Call)
     (i : Nat) (o : PObj) (htg : call.target = some i) (hec : isEffectCall call = true)
     (ho : (run cfg (St.init b0) h).ps.objs[i]? = some o)
     (hgone : ¬ Listed (run cfg (St.init b0) h).kern o) :
     (step cfg (run cfg (St.init b0) h) (.c call)).2 = .exc (.noSuchProcess o.pid)
       ∧ (step cfg (run cfg (St.init b0) h) (.c call)).1.log = (run cfg (St.init b0) h).log := by
-  have hinv := run_inv cfg_good.toBootGood h _ hh (init_inv cfg.clk hb)
+  have hinv := run_inv cfg_good.toBootGood h _ (HistOK.of_none_test cfg_none_test hh) (init_inv cfg.clk (BtOK.of_none_test cfg_none_test b0))
   generalize run cfg (St.init b0) h = s at *
   obtain ⟨B, hB, hok⟩ := hinv.ps.objs o (List.mem_of_getElem? ho)
   obtain ⟨r, hm⟩ := method_some cfg s.kern s.ps o htg
@@ -228,7 +238,7 @@ theorem C01_recycled_raises_NSP (b0 : Nat) (hb : BtOK cfg.createNoneTest b0) (h 
     it returns normally when the kernel carried the signal out (`refusal = none`), and raises
     AccessDenied(pid) when the kernel refused with EPERM / EACCES (the logged attempt carries that errno:
     nothing happened to the process, nothing else was tried). -/
-theorem C01_live_signal_delivered (b0 : Nat) (hb : BtOK cfg.createNoneTest b0) (h : List Ev) (hh : HistOK cfg.createNoneTest h)
+theorem C01_live_signal_delivered (b0 : Nat) (h : List Ev) (hh : HistOK true h)
     (i : Nat) (o : PObj) (m : SigMethod)
     (ho : (run cfg (St.init b0) h).ps.objs[i]? = some o)
     (hlive : Listed (run cfg (St.init b0) h).kern o) (hpid : o.pid ≠ 0) :
@@ -237,7 +247,7 @@ theorem C01_live_signal_delivered (b0 : Nat) (hb : BtOK cfg.createNoneTest b0) (
       ∧ (step cfg (run cfg (St.init b0) h) (.c (.signal i m))).1.log
           = ⟨.kill, i, o.pid, [(sigNumber m : Int)], some o.ghost, (run cfg (St.init b0) h).kern.refusal o.pid⟩
               :: (run cfg (St.init b0) h).log := by
-  have hinv := run_inv cfg_good.toBootGood h _ hh (init_inv cfg.clk hb)
+  have hinv := run_inv cfg_good.toBootGood h _ (HistOK.of_none_test cfg_none_test hh) (init_inv cfg.clk (BtOK.of_none_test cfg_none_test b0))
   generalize run cfg (St.init b0) h = s at *
   obtain ⟨B, hB, hok⟩ := hinv.ps.objs o (List.mem_of_getElem? ho)
   have halive := (listed_iff_owner hinv.kern o).1 hlive
@@ -253,7 +263,7 @@ theorem C01_live_signal_delivered (b0 : Nat) (hb : BtOK cfg.createNoneTest b0) (
 
 /-- the same for setters: on a live incarnation, accepted values are handed to the OS exactly once, for it;
     the call returns normally when the kernel applied them and raises AccessDenied(pid) when it refused -/
-theorem C01_live_setter_applied (b0 : Nat) (hb : BtOK cfg.createNoneTest b0) (h : List Ev) (hh : HistOK cfg.createNoneTest h)
+theorem C01_live_setter_applied (b0 : Nat) (h : List Ev) (hh : HistOK true h)
     (i : Nat) (o : PObj) (kind : SetKind) (args a : List Int)
     (ho : (run cfg (St.init b0) h).ps.objs[i]? = some o)
     (hlive : Listed (run cfg (St.init b0) h).kern o) (hargs : setterArgs cfg o.pid kind args = some a) :
@@ -262,7 +272,7 @@ theorem C01_live_setter_applied (b0 : Nat) (hb : BtOK cfg.createNoneTest b0) (h 
       ∧ (step cfg (run cfg (St.init b0) h) (.c (.setter i kind args))).1.log
           = ⟨.set kind, i, o.pid, a, some o.ghost, (run cfg (St.init b0) h).kern.refusal o.pid⟩
               :: (run cfg (St.init b0) h).log := by
-  have hinv := run_inv cfg_good.toBootGood h _ hh (init_inv cfg.clk hb)
+  have hinv := run_inv cfg_good.toBootGood h _ (HistOK.of_none_test cfg_none_test hh) (init_inv cfg.clk (BtOK.of_none_test cfg_none_test b0))
   generalize run cfg (St.init b0) h = s at *
   obtain ⟨B, hB, hok⟩ := hinv.ps.objs o (List.mem_of_getElem? ho)
   have halive := (listed_iff_owner hinv.kern o).1 hlive
@@ -332,8 +342,7 @@ def witnessCoincidence : List Ev :=
   [.k (.spawn 7), .c (.newObj 7), .k (.reap 7), .k (.tick 99), .k (.spawn 7), .k (.setBtime 999),
    .c .bootTime, .c (.signal 0 .kill)]
 
-example : HistOK cfg.createNoneTest witnessL1 ∧ HistOK cfg.createNoneTest witnessCoincidence
-    ∧ HistNoPid0 witnessL1 ∧ BtOK cfg.createNoneTest 1000 := by decide
+example : HistOK true witnessL1 ∧ HistOK true witnessCoincidence ∧ HistNoPid0 witnessL1 := by decide
 
 /-- with the extracted configuration both witnesses end in NoSuchProcess(7) and an empty log, and the
     hypotheses of `C01_recycled_raises_NSP` are met by a non-trivial state (PID recycled) -/
@@ -425,7 +434,50 @@ theorem C01_bootrewrite_counterexample : ¬ NoWrongOwner_Full cfgBootRewrite := 
   exact absurd hw (by decide)
 
 /-- `NoWrongOwner_Full` IS the statement proved for the extracted configuration -/
-theorem C01_no_wrong_owner_full : NoWrongOwner_Full cfg := C01_no_wrong_owner
+theorem C01_no_wrong_owner_full : NoWrongOwner_Full cfg :=
+  fun b0 _ h hh => C01_no_wrong_owner b0 h (cfg_none_test ▸ hh)
+
+/-! ## A published boot time of 0 — WHAT-IF (the source before /repo 29257b1; former finding `C02-boottime-zero`)
+
+With `bt = BOOT_TIME or boot_time()` a cached boot time of 0.0 (a board without RTC boots at the epoch) is falsy: every
+later `create_time()` follows the LIVE boot time, so after a clock step the reuse guard sees a "different process" under
+the PID of a handle whose process is alive, and refuses.  Safety (`C01_no_wrong_owner`) is not affected — nothing is
+ever delivered to a wrong process — but the clause "the guard refuses nothing it should not"
+(`C01_live_signal_delivered`) is false there.  The checked source tests `BOOT_TIME is not None` (`cfg_none_test`) and
+the clause holds for it for every boot time (`C01_live_signal_delivered_full`). -/
+
+/-- the first half of `C01_live_signal_delivered` for an arbitrary configuration, NO hypothesis on the boot time -/
+def LiveSignalDelivered_AnyBoot_Full (c : Cfg) : Prop :=
+  ∀ (b0 : Nat) (h : List Ev), HistOK true h → ∀ (i : Nat) (o : PObj) (m : SigMethod),
+    (run c (St.init b0) h).ps.objs[i]? = some o → Listed (run c (St.init b0) h).kern o → o.pid ≠ 0 →
+    (step c (run c (St.init b0) h) (.c (.signal i m))).2 = outOf o.pid ((run c (St.init b0) h).kern.refusal o.pid)
+
+/-- every guard in place, but `create_time()` tests the cached boot time by truthiness (psutil before /repo 29257b1) -/
+def cfgTruthy : Cfg := { goodCfg with createNoneTest := false }
+
+/-- a board that boots at the epoch: `Process(7)` captures `BOOT_TIME = 0.0`; NTP steps the clock (published btime 5) -/
+def witnessBtime0 : List Ev := [.k (.spawn 7), .c (.newObj 7), .k (.setBtime 5)]
+
+/-- **C01_btime0_counterexample** (WHAT-IF, not the checked source).  With the truthiness test, after `witnessBtime0`
+    from a published boot time of 0, `terminate()` on the handle of the LIVE process 7 raises NoSuchProcess(7): the
+    guard's fresh `Process(7)` is stamped with the live boot time 5, the handle with the cached 0. -/
+theorem C01_btime0_counterexample :
+    ¬ LiveSignalDelivered_AnyBoot_Full cfgTruthy
+    ∧ (step cfgTruthy (run cfgTruthy (St.init 0) witnessBtime0) (.c (.signal 0 .terminate))).2 = .exc (.noSuchProcess 7) := by
+  have h0 : (run cfgTruthy (St.init 0) witnessBtime0).ps.objs[0]? = some ⟨7, some 0, some 0, false, false, 0⟩ := by
+    decide
+  refine ⟨fun H => ?_, by decide⟩
+  have := H 0 witnessBtime0 (by decide) 0 _ .terminate h0 (by rw [← listedB_iff]; decide) (by decide)
+  revert this; decide
+
+/-- the clause holds for the configuration extracted from the checked source, for every boot time -/
+theorem C01_live_signal_delivered_full : LiveSignalDelivered_AnyBoot_Full cfg :=
+  fun b0 h hh i o m ho hl hp => (C01_live_signal_delivered b0 h hh i o m ho hl hp).1
+
+/-- with the extracted configuration the same history ends in a delivered SIGTERM -/
+example :
+    (run cfg (St.init 0) (witnessBtime0 ++ [.c (.signal 0 .terminate)])).log = [⟨.kill, 0, 7, [15], some 0, none⟩] := by
+  decide
 
 /-! ## One incarnation per clock tick — the hypothesis made explicit (CHARACTERISATION, psutil documents it)
 
@@ -511,8 +563,7 @@ mounts, LSMs): then `Process._init` swallows AccessDenied and keeps `_ident = (p
 `None`.  The statement below — `C01_no_wrong_owner` for histories in which stat files may be hidden — is
 false; its witness is replayed on the real code by the check (corpus `unknown-start-recycled`). -/
 
-/-- `C01_no_wrong_owner` with `HistOKb` (only "the published boot time is never 0": stat files may be hidden)
-    in place of `HistOK` -/
+/-- `C01_no_wrong_owner` with `HistOKb` (stat files may be hidden; still no same-tick recycling) in place of `HistOK` -/
 def NoWrongOwner_AnyReadability_Full (c : Cfg) : Prop :=
   ∀ (b0 : Nat), BtOK c.createNoneTest b0 → ∀ (h : List Ev), HistOKb c.createNoneTest h →
     ∀ e ∈ (run c (St.init b0) h).log, EffOK (run c (St.init b0) h).ps.objs e
@@ -539,17 +590,17 @@ theorem C01_unknown_start_counterexample : ¬ NoWrongOwner_AnyReadability_Full c
   exact absurd hw (by decide)
 
 /-- **C01_known_start_no_wrong_owner.** What does survive unreadable stat files.  After ANY history — `hide`
-    events included; only the published boot time must never be 0 — every OS call in the log (carried out or
+    events included, from any boot time, with any clock steps — every OS call in the log (carried out or
     refused) was made by an existing object under exactly that object's PID, a signal never went to PID ≤ 0, and
     whenever the asking object's start time is known (`_ident = (pid, t)`: its stat file was readable when it
     was built) the PID was held at that instant by the very incarnation the object was built for.  So the
     counterexample above needs an object with `_ident = (pid, None)`; an object with a known start is at worst
     refused too eagerly (NoSuchProcess while its stat file is hidden: `C02_unknown_start_counterexample`). -/
-theorem C01_known_start_no_wrong_owner (b0 : Nat) (hb : BtOK cfg.createNoneTest b0) (h : List Ev) (hh : HistOKb cfg.createNoneTest h) :
+theorem C01_known_start_no_wrong_owner (b0 : Nat) (h : List Ev) (hh : HistOKb true h) :
     ∀ e ∈ (run cfg (St.init b0) h).log,
       ∃ o, (run cfg (St.init b0) h).ps.objs[e.obj]? = some o ∧ e.pid = (o.pid : Int)
         ∧ (e.kind = .kill → 0 < e.pid) ∧ (o.ident ≠ none → e.owner = some o.ghost) :=
-  run_log2 cfg_good h _ hh (init_inv2 _ hb) (fun e he => by simp [St.init] at he)
+  run_log2 cfg_good h _ (HistOKb.of_none_test cfg_none_test hh) (init_inv2 _ (BtOK.of_none_test cfg_none_test b0)) (fun e he => by simp [St.init] at he)
 
 /-- **C01_recycled_raises_NSP_readable.**  The recycling clause of the property over the wider class of histories in
     which stat files may be unreadable at ANY point (`HistOKb`: `hide` events anywhere — in particular while a
@@ -561,15 +612,15 @@ theorem C01_known_start_no_wrong_owner (b0 : Nat) (hb : BtOK cfg.createNoneTest 
     guard for a stale object is `C01_unknown_start_counterexample` (start unknown AND the new holder unreadable
     at that very moment).  Consumes `cfg_good`; the model's "`_ident` is written at construction only" is
     `cfg_ident_writers`. -/
-theorem C01_recycled_raises_NSP_readable (b0 : Nat) (hb : BtOK cfg.createNoneTest b0) (h : List Ev)
-    (hh : HistOKb cfg.createNoneTest h) (call : Call)
+theorem C01_recycled_raises_NSP_readable (b0 : Nat) (h : List Ev)
+    (hh : HistOKb true h) (call : Call)
     (i : Nat) (o : PObj) (htg : call.target = some i) (hec : isEffectCall call = true)
     (ho : (run cfg (St.init b0) h).ps.objs[i]? = some o)
     (hgone : ¬ Listed (run cfg (St.init b0) h).kern o)
     (hread : StatOpens (run cfg (St.init b0) h).kern o.pid) :
     (step cfg (run cfg (St.init b0) h) (.c call)).2 = .exc (.noSuchProcess o.pid)
       ∧ (step cfg (run cfg (St.init b0) h) (.c call)).1.log = (run cfg (St.init b0) h).log := by
-  have hinv := run_inv2 cfg_good.toBootGood h _ hh (init_inv2 cfg.clk hb)
+  have hinv := run_inv2 cfg_good.toBootGood h _ (HistOKb.of_none_test cfg_none_test hh) (init_inv2 cfg.clk (BtOK.of_none_test cfg_none_test b0))
   generalize run cfg (St.init b0) h = s at *
   obtain ⟨r, hm⟩ := method_some cfg s.kern s.ps o htg
   obtain ⟨he, hout⟩ := method_refuses_readable cfg_good hinv.kern.stamp hinv.ps.boot_nz
@@ -580,17 +631,17 @@ theorem C01_recycled_raises_NSP_readable (b0 : Nat) (hb : BtOK cfg.createNoneTes
 /-- **C01_effect_readable_right_owner.**  The same clause read off the effects: after ANY history (`HistOKb`), whenever
     a call does hand something to the OS while the PID's stat file opens, the PID is held by the very incarnation the
     asking object was built for (`Eff.owner` = the object's ghost) — known start or not. -/
-theorem C01_effect_readable_right_owner (b0 : Nat) (hb : BtOK cfg.createNoneTest b0) (h : List Ev)
-    (hh : HistOKb cfg.createNoneTest h) (call : Call) (i : Nat) (o : PObj) (e : Eff)
+theorem C01_effect_readable_right_owner (b0 : Nat) (h : List Ev)
+    (hh : HistOKb true h) (call : Call) (i : Nat) (o : PObj) (e : Eff)
     (htg : call.target = some i) (ho : (run cfg (St.init b0) h).ps.objs[i]? = some o)
     (hread : StatOpens (run cfg (St.init b0) h).kern o.pid)
     (hlog : (step cfg (run cfg (St.init b0) h) (.c call)).1.log = e :: (run cfg (St.init b0) h).log) :
     e.owner = some o.ghost ∧ e.pid = (o.pid : Int) ∧ Listed (run cfg (St.init b0) h).kern o := by
-  have hinv := run_inv2 cfg_good.toBootGood h _ hh (init_inv2 cfg.clk hb)
+  have hinv := run_inv2 cfg_good.toBootGood h _ (HistOKb.of_none_test cfg_none_test hh) (init_inv2 cfg.clk (BtOK.of_none_test cfg_none_test b0))
   have hlisted : Listed (run cfg (St.init b0) h).kern o := Classical.byContradiction fun hgone => by
     cases hec : isEffectCall call with
     | true =>
-      have := (C01_recycled_raises_NSP_readable b0 hb h hh call i o htg hec ho hgone hread).2
+      have := (C01_recycled_raises_NSP_readable b0 h hh call i o htg hec ho hgone hread).2
       rw [this] at hlog
       exact absurd (congrArg List.length hlog) (by simp)
     | false =>
@@ -628,7 +679,7 @@ theorem C01_effect_readable_right_owner (b0 : Nat) (hb : BtOK cfg.createNoneTest
 example :
     let h : List Ev := [.k (.spawn 7), .k (.hide 7 true), .c (.newObj 7), .k (.reap 7), .k (.spawn 7),
                         .k (.hide 7 false), .c (.createTime 0)]
-    HistOKb cfg.createNoneTest h
+    HistOKb true h
     ∧ (step cfg (run cfg (St.init 1000) (h.take 6)) (.c (.createTime 0))).2 = .nat (1 + cfg.clk * 1000)
     ∧ (run cfg (St.init 1000) h).ps.objs[0]? = some ⟨7, none, some (1 + cfg.clk * 1000), false, false, 0⟩
     ∧ statOpensB (run cfg (St.init 1000) h).kern 7 = true ∧ listedB (run cfg (St.init 1000) h).kern ⟨7, none, none, false, false, 0⟩ = false
